@@ -8,6 +8,7 @@ mod dom_hdr;
 mod dom_date;
 mod dom_pool;
 mod dom_route;
+mod dom_conn;
 mod interpose;
 
 fn main() {
@@ -36,6 +37,7 @@ fn main() {
             "DATECACHE" => dom_date::date_cache(rest),
             "POOL" => dom_pool::pool(rest),
             "ROUTE" => dom_route::route(rest),
+            "CONN" => dom_conn::conn(rest),
             _ => "BAD-DOMAIN".to_string(),
         };
         let _ = writeln!(out, "{}", ans);
